@@ -93,6 +93,7 @@ Bytes = _Simple("Bytes", StrS)
 Slice = _Simple("Slice", SliceDT)
 Dyn = _Simple("Dyn", Val)
 NoneT = _Simple("NoneT", None)
+OpaqueT = _Simple("Opaque", IntS)
 
 
 class SeqOf(Sort):
@@ -449,6 +450,8 @@ def unbox(t, sort):
         return VSlice(Val.sl(t))
     if isinstance(sort, Obj):
         return VObj(Val.ref(t), sort.cls)
+    if sort is OpaqueT:
+        return VOpaque(Val.ok(t))
     if isinstance(sort, Enum):
         return VEnum(sort.name, Val.em(t))
     if isinstance(sort, SeqOf):
@@ -485,6 +488,8 @@ def is_sort_cond(t, sort):
         return Val.is_VSliceV(t)
     if sort is NoneT:
         return Val.is_VNone(t)
+    if sort is OpaqueT:
+        return Val.is_VOpaque(t)
     if isinstance(sort, Obj):
         return z3.And(Val.is_VObj(t), Val.cls(t) == CLASSES.id(sort.cls))
     if isinstance(sort, Enum):
@@ -528,6 +533,8 @@ def elem_to_term(v, elem):
         return v.t
     if isinstance(elem, Enum) and isinstance(v, VEnum):
         return v.t
+    if elem is OpaqueT and isinstance(v, VOpaque):
+        return v.t
     raise TypeError("elem_to_term %r as %r" % (v, elem))
 
 
@@ -555,6 +562,8 @@ def term_to_elem(t, elem):
         return VDyn(t)
     if isinstance(elem, SeqOf):
         return VSeq(t, elem.elem)
+    if elem is OpaqueT:
+        return VOpaque(t)
     raise TypeError("term_to_elem %r" % (elem,))
 
 
@@ -581,6 +590,8 @@ def sort_of_sv(v):
         return Enum(v.name)
     if isinstance(v, VSeq):
         return SeqOf(v.elem)
+    if isinstance(v, VOpaque):
+        return OpaqueT
     return Dyn
 
 
@@ -627,6 +638,8 @@ def make_symbolic(name, sort, assumptions):
         return NONE
     if sort is Dyn:
         return VDyn(fresh(name, Val))
+    if sort is OpaqueT:
+        return VOpaque(fresh(name, IntS), name)
     if isinstance(sort, Opt):
         t = fresh(name, Val)
         assumptions.append(is_sort_cond(t, sort))
